@@ -357,6 +357,7 @@ func (rp *replica) exec(q *query) (res []refmap.KV, broken string) {
 			ctx, cancel := context.WithCancel(context.Background())
 			it := istorage.NewIterator(d.SeekAsync(ctx, id, sr), rel, q.opts)
 			stopped := false
+			var items []stackitem.Item
 			for {
 				if !stopped {
 					between()
@@ -367,7 +368,17 @@ func (rp *replica) exec(q *query) (res []refmap.KV, broken string) {
 				if stopped {
 					continue
 				}
-				item := it.Value()
+				// items are kept and decoded only after the iteration is over, the
+				// way a contract collecting them into an array (or the RPC server
+				// expanding an iterator) uses them: an item must not change once
+				// it has been handed out
+				items = append(items, it.Value())
+				if q.stop > 0 && len(res)+len(items) == q.stop {
+					cancel() // what the interop layer does when the execution ends with the iterator open
+					stopped = true
+				}
+			}
+			for _, item := range items {
 				var k, v []byte
 				var err error
 				switch {
@@ -397,10 +408,6 @@ func (rp *replica) exec(q *query) (res []refmap.KV, broken string) {
 					}
 				}
 				add(k, v)
-				if q.stop > 0 && len(res) == q.stop {
-					cancel() // what the interop layer does when the execution ends with the iterator open
-					stopped = true
-				}
 			}
 			cancel()
 		}
